@@ -11,8 +11,11 @@ Driver ops for C20 (object life-cycle models):
         <ok|ExceptionClass> # <result tokens> # R=<hidden attrs read> # W=<attrs written, in order>
 
   asm  <panel-1 definition (16 fields)> / <panel-2 definition> / <connGiven> | <op> ...
-     op ∈ size k0:<other> kG0 kG kM kT fint fext conn:<other> uvw strain stress   (<other>: a conn list is passed)
+     op ∈ size k0:<conn>[:<fin>] kG0 kG kM kT fint fext conn:<conn>[:<fin>] uvw strain stress
+          <conn>: 0 no `conn=` argument, 1 `conn=` another list, 2 `conn=asm.conn` (the own list object: same as 0);
+          <fin>: the `finalize=` argument (default 1)
      reply per op: <ok|Exc> # <tokens 1> / <tokens 2> / <conn token> # R1=.. # W1=.. # R2=.. # W2=..
+          conn token: <own|other>:<sym|raw>{<kt_kr tokens 1>|<kt_kr tokens 2>}   (sym: finalized, raw: finalize=False)
   bay  <modelGiven> <stiffened flat bay> | <op> ...        op ∈ size k0 kG0 kM kA cA fext uvw          reply per op: <ok|Exc>
   cone <fcGiven> <rebuilt> | <op> ... op ∈ size k0 lb static fext fint kT uvw strain stress
      reply per op: <ok|TypeError|SEGV> # <axial-load provenance consumed: - unset zero user one>
@@ -142,17 +145,26 @@ end P
 namespace A
 open Compmech.Lifecycle.Panel Compmech.Lifecycle.Asm
 
+/-- the `conn=` argument: none, another list, `self.conn` itself -/
+def other? : String → Option Bool
+  | "0" => some false
+  | "1" => some true
+  | "2" => some false
+  | _ => none
+
 def op? (s : String) : Option AOp :=
   match s.splitOn ":" with
   | ["size"] => some .size
-  | ["k0", b] => (bool? b).map .k0
+  | ["k0", b] => (other? b).map (AOp.k0 · true)
+  | ["k0", b, f] => do let o ← other? b; let f ← bool? f; pure (.k0 o f)
   | ["kG0"] => some .kG0
   | ["kG"] => some .kG
   | ["kM"] => some .kM
   | ["kT"] => some .kT
   | ["fint"] => some .fint
   | ["fext"] => some .fext
-  | ["conn", b] => (bool? b).map .conn
+  | ["conn", b] => (other? b).map (AOp.conn · true)
+  | ["conn", b, f] => do let o ← other? b; let f ← bool? f; pure (.conn o f)
   | ["uvw"] => some .uvw
   | ["strain"] => some .strain
   | ["stress"] => some .stress
@@ -162,7 +174,8 @@ def showToks (l : List Tok) : String := "+".intercalate (l.map P.showTok)
 
 def showConn : Option ConnTok → String
   | none => "-"
-  | some t => (match t.id with | .own => "own" | .other => "other") ++ "{" ++ showToks t.t1 ++ "|" ++ showToks t.t2 ++ "}"
+  | some t => (match t.id with | .own => "own" | .other => "other") ++ (if t.fin then ":sym" else ":raw") ++
+      "{" ++ showToks t.t1 ++ "|" ++ showToks t.t2 ++ "}"
 
 def showLog (tag : String) (l : Log) : String :=
   s!"R{tag}=" ++ ",".intercalate ((P.dedup l.rd).map P.showAttr) ++ s!" # W{tag}=" ++
